@@ -684,6 +684,23 @@ fn candidates(check: &dyn Check, sc: &Scenario) -> Vec<Scenario> {
         }
         for i in 0..sc.ops.len() {
             match &sc.ops[i] {
+                BOp::Batch(ps) | BOp::BatchLazy(ps, _) if ps.len() > 48 => {
+                    // a huge batch: halve it, keep its ends; never one candidate per item
+                    let lazy = match &sc.ops[i] {
+                        BOp::BatchLazy(_, st) => Some(*st),
+                        _ => None,
+                    };
+                    let n = ps.len();
+                    for (a, b) in [(0, n / 2), (n / 2, n), (0, n - 1), (1, n), (0, 1), (0, 48)] {
+                        let part = ps[a..b.min(n)].to_vec();
+                        let mut c = sc.clone();
+                        c.ops[i] = match lazy {
+                            Some(st) => BOp::BatchLazy(part, st),
+                            None => BOp::Batch(part),
+                        };
+                        out.push(c);
+                    }
+                }
                 BOp::Batch(ps) => {
                     // batch -> singles
                     let mut c = sc.clone();
@@ -811,7 +828,12 @@ fn weight(sc: &Scenario) -> (usize, usize, usize) {
 }
 
 /// Shrink while a violation of the same class (property + clause) persists.
-pub fn minimise(check: &dyn Check, sc: &Scenario, v: &Violation) -> (Scenario, Violation, u64) {
+pub fn minimise(
+    check: &dyn Check,
+    sc: &Scenario,
+    v: &Violation,
+    budget_s: u64,
+) -> (Scenario, Violation, u64) {
     let class = v.class();
     let mut best = sc.clone();
     let mut best_v = v.clone();
@@ -830,7 +852,7 @@ pub fn minimise(check: &dyn Check, sc: &Scenario, v: &Violation) -> (Scenario, V
     }
     let start = Instant::now();
     'outer: loop {
-        if execs > 20_000 || start.elapsed().as_secs() > 20 {
+        if execs > 20_000 || start.elapsed().as_secs() >= budget_s {
             break;
         }
         let cands = candidates(check, &best);
@@ -846,7 +868,7 @@ pub fn minimise(check: &dyn Check, sc: &Scenario, v: &Violation) -> (Scenario, V
                 best_v = found;
                 continue 'outer;
             }
-            if execs > 20_000 || start.elapsed().as_secs() > 20 {
+            if execs > 20_000 || start.elapsed().as_secs() >= budget_s {
                 break 'outer;
             }
         }
@@ -975,9 +997,12 @@ pub fn run_check(check: &dyn Check, tier: Tier) -> Outcome {
             MAX_GROUPS
         );
     }
+    // minimisation budget: 20 s per group, 150 s for the whole report
+    let report_start = Instant::now();
     for (index, v, count) in groups.iter().take(MAX_GROUPS) {
         let sc = scenario_for(check, master, *index, tier);
-        let (min_sc, min_v, execs) = minimise(check, &sc, v);
+        let left = 150u64.saturating_sub(report_start.elapsed().as_secs());
+        let (min_sc, min_v, execs) = minimise(check, &sc, v, left.min(20));
         let sig = min_v.signature();
         if !reported.insert(sig.clone()) {
             continue;
@@ -1242,3 +1267,100 @@ pub fn sample_json(sc: &Scenario) -> Value {
     }
     Value::Object(j)
 }
+
+// ------------------------------------------------------------- crashes -------
+
+/// Execute the runs lo..hi on all cores, ignoring violations (used to bisect a crash).
+pub fn run_range(check: &dyn Check, tier: Tier, lo: u64, hi: u64) {
+    let master = master_seed();
+    let workers = std::thread::available_parallelism()
+        .map(|n| n.get())
+        .unwrap_or(4);
+    let next = AtomicU64::new(lo);
+    std::thread::scope(|scope| {
+        for _ in 0..workers {
+            scope.spawn(|| loop {
+                let i = next.fetch_add(1, Ordering::Relaxed);
+                if i >= hi {
+                    break;
+                }
+                let sc = scenario_for(check, master, i, tier);
+                let mut st = Stats::default();
+                let _ = check.execute(&sc, &mut st);
+            });
+        }
+    });
+}
+
+/// The batch process died from a signal. Find the run that kills it by bisection over run
+/// indices (every run is a pure function of its index), write its scenario as a replay file,
+/// confirm that replaying it kills a fresh process too, and report it.
+pub fn crashed_batch(check: &dyn Check, tier: Tier, how: &str) -> i32 {
+    let master = master_seed();
+    let n = std::env::var("VERIF_RUNS")
+        .ok()
+        .and_then(|s| s.parse::<u64>().ok())
+        .unwrap_or_else(|| check.runs(tier));
+    println!(
+        "pppsim: the batch process of {} died ({}); bisecting the run index",
+        check.id(),
+        how
+    );
+    let exe = std::env::current_exe().expect("current_exe");
+    let tier_name = tier.name().to_string();
+    let dies = |lo: u64, hi: u64| -> bool {
+        let st = std::process::Command::new(&exe)
+            .args(["range", check.id(), &tier_name, &lo.to_string(), &hi.to_string()])
+            .stdout(std::process::Stdio::null())
+            .stderr(std::process::Stdio::null())
+            .status();
+        matches!(st, Ok(s) if s.code().is_none())
+    };
+    let (mut lo, mut hi) = (0u64, n);
+    if !dies(lo, hi) {
+        eprintln!("pppsim: harness error: the crash did not reproduce when the runs were repeated");
+        return 2;
+    }
+    while hi - lo > 1 {
+        let mid = lo + (hi - lo) / 2;
+        if dies(lo, mid) {
+            hi = mid;
+        } else {
+            lo = mid;
+        }
+    }
+    let index = lo;
+    let sc = scenario_for(check, master, index, tier);
+    let v = Violation {
+        prop: check.id().to_string(),
+        clause: "abort".into(),
+        entry: sc.entry.name().into(),
+        shape: shape(&sc.stream),
+        result: how.to_string(),
+        focus: None,
+        detail: format!(
+            "run {} kills the process ({}): a fatal error inside the code under test (stack overflow, abort or similar), which catch_unwind cannot contain",
+            index, how
+        ),
+    };
+    let path = write_replay(check.id(), &sc, &v, master, index);
+    // the replay must kill a fresh process too
+    let st = std::process::Command::new(&exe)
+        .args(["replay", &path, "--quiet"])
+        .env("VERIF_NO_SUPERVISOR", "1")
+        .stdout(std::process::Stdio::null())
+        .stderr(std::process::Stdio::null())
+        .status();
+    if !matches!(st, Ok(s) if s.code().is_none()) {
+        eprintln!(
+            "pppsim: harness error: replay {} does not kill a fresh process",
+            path
+        );
+        return 2;
+    }
+    println!("  signature: {}", v.signature());
+    println!("  detail: {}", v.detail);
+    println!("VIOLATION property={} replay={}", check.id(), path);
+    1
+}
+
